@@ -417,6 +417,10 @@ var ruleLineThresholds = &core.Rule{ID: "R13.3", Min: 8,
 			}
 		}
 		if rd == nil {
+			// configured and read in helpers of the helper: the single-function model of this rule does not apply
+			if reachesCallee(g, func(cc *ssa.CallCommon) bool { return core.CalleeIs(cc, "encoding/csv", "NewReader") }, map[*ssa.Function]bool{}) {
+				core.Bail("the csv reader is created in a helper of %s: reader configuration, record loop and thresholds are spread over several functions, which this rule does not follow", g.Name())
+			}
 			s.Bad("csv reader", c.Pos(g.Pos()), "the CSV/TSV helper does not use encoding/csv")
 			return
 		}
@@ -565,7 +569,14 @@ func errPathsCSV(err *ssa.Extract, f *ssa.Function) string {
 		}
 		switch t := b.Instrs[len(b.Instrs)-1].(type) {
 		case *ssa.Return:
-			v, ok := core.ConstBool(spilled(t, 0))
+			// the verdict: the bool result (the only one, or the bool component of (count, ok))
+			bi := 0
+			for i := range t.Results {
+				if bt, isB := t.Results[i].Type().Underlying().(*types.Basic); isB && bt.Kind() == types.Bool {
+					bi = i
+				}
+			}
+			v, ok := core.ConstBool(spilled(t, bi))
 			switch k {
 			case nonNil:
 				if !ok || v {
